@@ -64,6 +64,21 @@ pub fn op_place(args: &[Sexp]) -> String {
             };
             insts[i].write().unwrap().loc = loc;
         }
+        // another cell of the same library, listed (hence placed) first, whose instances carry the SAME names but
+        // other cells and positions, each placed relative to the one before: nothing of it may leak into `top`
+        let mut decoy_insts: Vec<Ptr<Instance>> = vec![];
+        if specs.len() % 3 != 0 && !cells.is_empty() {
+            let mut decoy = t::layout::Layout::new("decoy", 0, t::outline::Outline::rect(3000, 3000).ok()?);
+            for i in 0..specs.len() {
+                let loc: Place<Xy<PrimPitches>> = if i == 0 { (500isize, 300isize).into() } else {
+                    Place::Rel(RelativePlace { to: Placeable::Instance(decoy_insts[i - 1].clone()), side: Side::Right, align: Align::Side(Side::Bottom), sep: Separation::default() })
+                };
+                let inst = Ptr::new(Instance { inst_name: format!("{}", i), cell: cells[(i + 1) % cells.len()].clone(), loc, reflect_horiz: false, reflect_vert: false });
+                decoy.instances.push(inst.clone());
+                decoy_insts.push(inst);
+            }
+            lib.cells.add(decoy);
+        }
         let mut top = t::layout::Layout::new("top", 0, t::outline::Outline::rect(1000, 1000).ok()?);
         for i in &insts { top.instances.push(i.clone()); }
         // every other case, the cell holding the placements is NOT registered in the library: it is
@@ -92,6 +107,7 @@ pub fn op_place(args: &[Sexp]) -> String {
         };
         // break Ptr cycles (relative placements referring to each other)
         for i in &insts { i.write().unwrap().loc = (0, 0).into(); }
+        for i in &decoy_insts { i.write().unwrap().loc = (0, 0).into(); }
         Some(out)
     })();
     r.unwrap_or("bad-op".into())
